@@ -85,6 +85,36 @@ func c17Check(env *core.Env, cc core.Case) core.Verdict {
 	}
 
 	switch c.Cmd {
+	case "generate-long-exclusion":
+		// the exclude file holds a very long line between two exclusions that match: both must still be applied
+		long := "q" + longBody(c.Len-1)
+		excl := c.place(long, func(i int) string { return []string{"bravo2", "delta4", "golf7"}[i%3] })
+		tree := sut.Tree{"regex-assembly/toolchain.yaml": crsToolchainYAML, "regex-assembly/include/words.ra": "alpha1\nbravo2\ncharlie3\ndelta4\necho5\ngolf7\n",
+			"regex-assembly/exclude/long.ra": c.join(excl), "regex-assembly/932100.ra": "zulu26\n##!> include-except words long\n"}
+		if err := tree.Write(root); err != nil {
+			return core.Incon("cannot write tree: %v", err)
+		}
+		before := sut.Snap(root)
+		r := sut.Run(sut.Cmd{Bin: env.Bin, Args: []string{"-d", root, "regex", "generate", "932100"}, Dir: root, Timeout: 120 * 1e9})
+		if done, vv := loud(r, before); done {
+			return vv
+		}
+		re, err := regexp.Compile("^(?:" + string(r.Stdout) + ")$")
+		if err != nil {
+			return core.Viol("invalid-output:generate-long-exclusion", "generate printed something that is not a regex: %v", err)
+		}
+		listed := map[string]bool{}
+		for _, e := range excl {
+			listed[e] = true
+		}
+		for _, w := range []string{"alpha1", "bravo2", "charlie3", "delta4", "echo5", "golf7", "zulu26"} {
+			if re.MatchString(w) == listed[w] {
+				return core.Viol("exclusion-dropped:generate-long-exclusion", "an exclude file with a %d-byte line at position %s (exclusions %v around it): entry %s is %s", c.Len, c.Pos, len(excl)-1, w, map[bool]string{true: "still accepted although it is excluded", false: "missing although it is not excluded"}[listed[w]])
+			}
+		}
+		v.Counts["entries_checked"] = 7
+		return v
+
 	case "generate", "generate-stdin", "generate-include", "generate-include-affix", "generate-except", "generate-cmdline", "generate-define", "generate-define-include", "generate-beside-define", "generate-beside-define-include":
 		long := "q" + longBody(c.Len-1)
 		if c.Len == 1 {
@@ -455,7 +485,7 @@ func init() {
 	register(&core.Property{
 		ID:    "C17",
 		Level: "exploration",
-		Rule: "every line-oriented command (generate from a file and from stdin (total input above 1 MiB included), through include, through an include file that has its own prefix and suffix, through include-except, inside a cmdline block, through the expansion of a definition in the file or in an include file, and as a literal entry beside a definition; format and format --check; renumber-tests; update-copyright; update) gets an input in which one line has length L in {1, 4096, 8192, 65535, 65536, 65537, 70000, 262144, 1048576} at the first, middle or last position among 0..9 short lines, with and without final newline (the quick tier enumerates L in {1, 65535, 65536, 70000} at all positions and 1 MiB in the middle; the thorough tier enumerates everything and adds PRNG-chosen lengths around the 64 KiB boundary). " +
+		Rule: "every line-oriented command (generate from a file and from stdin (total input above 1 MiB included), through include, through an include file that has its own prefix and suffix, through include-except, inside a cmdline block, through the expansion of a definition in the file or in an include file, as a literal entry beside a definition, and as a line of an exclude file between exclusions that match; format and format --check; renumber-tests; update-copyright; update) gets an input in which one line has length L in {1, 4096, 8192, 65535, 65536, 65537, 70000, 262144, 1048576} at the first, middle or last position among 0..9 short lines, with and without final newline (the quick tier enumerates L in {1, 65535, 65536, 70000} at all positions and 1 MiB in the middle; the thorough tier enumerates everything and adds PRNG-chosen lengths around the 64 KiB boundary). " +
 			"Oracle (conservation): either the command fails loudly and changes nothing, or the generated/stored regex accepts every entry including those after the long one and the long entry itself (checked with Go's regexp engine), and rewritten files equal the line model of the respective command. Non-trivial = L >= 65536.",
 		Cases: func(env *core.Env, rng *rand.Rand) []core.Case {
 			var cs []core.Case
@@ -465,7 +495,7 @@ func init() {
 					lens = append(lens, 65000+rng.Intn(1200), 131072-2+rng.Intn(5), 600000+rng.Intn(500000))
 				}
 			}
-			for _, cmd := range []string{"generate", "generate-stdin", "generate-include", "generate-include-affix", "generate-except", "generate-cmdline", "generate-define", "generate-define-include", "generate-beside-define", "generate-beside-define-include", "generate-include-many", "format", "format-check", "renumber", "renumber-all", "copyright", "update"} {
+			for _, cmd := range []string{"generate", "generate-stdin", "generate-include", "generate-include-affix", "generate-except", "generate-cmdline", "generate-define", "generate-define-include", "generate-beside-define", "generate-beside-define-include", "generate-long-exclusion", "generate-include-many", "format", "format-check", "renumber", "renumber-all", "copyright", "update"} {
 				for _, l := range lens {
 					for _, pos := range []string{"first", "middle", "last"} {
 						for _, nf := range []bool{false, true} {
